@@ -496,6 +496,7 @@ package client
 //@ pred connInv(conn *Conn) := conn != nil && conn.cfg != nil && conn.cfg.Recover != nil
 //@     && setOK(conn.intHandlers) && setOK(conn.fgHandlers) && setOK(conn.bgHandlers)
 //@     && conn.intHandlers != conn.fgHandlers && conn.intHandlers != conn.bgHandlers && conn.fgHandlers != conn.bgHandlers
+//@     && (conn.connected ==> conn.sock != nil)
 
 // The default Recover: stops the panic it is deferred for, never panics itself.
 //@ func (*Conn).LogPanic
@@ -676,7 +677,6 @@ package client
 //@   bind dcmd string := before client.(*Conn).dispatch 1 arg1.Cmd
 //@   bind pd int := after client.(*Conn).dispatch 1 $trlen
 //@   requires connInv(conn) && held(conn.mu) == 0
-//@   requires conn.connected ==> conn.sock != nil
 //@   modifies $tr, $wg, $wire, $log, $now, $held, heap
 //@   ensures $held === old($held)
 //@   ensures $tr[old($trlen)] == ev("lock", conn.mu)
@@ -701,11 +701,18 @@ package client
 // postConnect(start=true): buffered reader/writer over the socket, a
 // cancellable context, and exactly one send, one recv, one runLoop goroutine
 // (plus ping iff PingFreq > 0), each counted on conn.wg before it is spawned.
+// Only recv sends on conn.in, and only parsed (non-nil) lines.
+//@ chan_nonnil [C02] Conn.in
+//@ closure [C02,C03] sends_on Conn.in in (*Conn).recv
+//@ closure [C03] recvs_on Conn.in in (*Conn).runLoop, (*Conn).drainIn
+
 //@ func (*Conn).postConnect
 //@   property C06, C18, C09, C03
 //@   safety C06
-//@   requires connOK(conn)
-//@   modifies conn.io, conn.die, $tr, $wg, ReadWriter.Reader, ReadWriter.Writer
+//@   requires connInv(conn) && conn.in != nil && conn.out != nil && ctx != nil
+//@   requires [C10] conn.badness == 0 || (0 <= conn.badness && conn.badness <= 10000000000)
+//@   requires [C10] 0 <= conn.lastsent && conn.lastsent <= $now && $now <= 4611686018427387904
+//@   modifies conn.io, conn.die, $tr, $wg, bufio.ReadWriter.Reader, bufio.ReadWriter.Writer
 //@   ensures conn.io != nil && conn.io.Reader != nil && conn.io.Writer != nil
 //@   ensures !start ==> $trlen == old($trlen)
 //@   ensures start ==> conn.die != nil
@@ -722,7 +729,7 @@ package client
 // ---------------------------------------------------------------------------
 // connection.go: the three goroutines
 
-//@ pred sockOK(conn *Conn) := connInv(conn) && ioOK(conn) && conn.io.Reader != nil && (conn.connected ==> conn.sock != nil)
+//@ pred sockOK(conn *Conn) := connInv(conn) && ioOK(conn) && conn.io.Reader != nil
 
 // send: every line dequeued from conn.out goes to exactly one write, in
 // dequeue order (C09); flood accounting stays bounded (C10); the only exits
@@ -730,13 +737,15 @@ package client
 //@ func (*Conn).send
 //@   property C09, C06, C10
 //@   safety C09
+//@   ghost viaErr bool := false
+//@   bind viaErr bool := after sync.(*WaitGroup).Done 1 true
 //@   bind pdone int := after sync.(*WaitGroup).Done 1 $trlen
 //@   bind pdone2 int := after sync.(*WaitGroup).Done 2 $trlen
 //@   requires sockOK(conn) && held(conn.mu) == 0 && conn.out != nil && ctx != nil
 //@   requires [C10] 0 <= conn.badness && conn.badness <= 10000000000 && 0 <= conn.lastsent && conn.lastsent <= $now && $now <= 4611686018427387904
 //@   modifies $tr, $wg, $wire, $log, $now, $deadline, $held, heap
-//@   ensures [C06] ($tr[pdone - 1] == ev("wgdone", old(conn.wg)) && $tr[pdone] == ev("lock", old(conn.mu)))
-//@              || ($tr[pdone2 - 1] == ev("wgdone", old(conn.wg)) && pdone2 == $trlen)
+//@   ensures [C06] viaErr ==> $tr[pdone - 1] == ev("wgdone", old(conn.wg)) && $tr[pdone] == ev("lock", old(conn.mu))
+//@   ensures [C06] !viaErr ==> $tr[pdone2 - 1] == ev("wgdone", old(conn.wg)) && pdone2 == $trlen
 //@   loop 0:
 //@     ghost n int := 0
 //@     ghost got smap := emptysmap()
@@ -758,4 +767,116 @@ package client
 //@     step got := upd(got, n, line)
 //@     step pos := upd(pos, n, iterstart($trlen))
 //@     step hc := conn.cfg.Flood ? hc : (conn.badness > 10000000000 ? charge(len(line)) : 0)
+//@ end
+
+// recv: reads CRLF-terminated lines; every line ParseLine accepts is sent,
+// once, on conn.in before the next read (blocking send: nothing is dropped);
+// lines it rejects are logged and skipped; the only exit is a read error,
+// and it ends with wg.Done followed by Close (C02, C03, C06).
+//@ func (*Conn).recv
+//@   property C02, C03, C06
+//@   safety C02
+//@   bind pdone int := after sync.(*WaitGroup).Done 1 $trlen
+//@   requires sockOK(conn) && held(conn.mu) == 0 && conn.in != nil
+//@   modifies $tr, $wg, $wire, $log, $now, $held, heap
+//@   ensures [C06] $tr[pdone - 1] == ev("wgdone", old(conn.wg)) && $tr[pdone] == ev("lock", old(conn.mu))
+//@   loop 0:
+//@     ghost nr int := 0
+//@     invariant sockOK(conn) && held(conn.mu) == 0 && conn.in != nil
+//@        && conn.io === preloop(conn.io) && conn.io.Reader === preloop(conn.io.Reader)
+//@        && conn.in === preloop(conn.in) && conn.wg === preloop(conn.wg) && conn.mu === preloop(conn.mu)
+//@     invariant nr >= 0 && $wirelen == preloop($wirelen) + nr
+//@     invariant $trlen - preloop($trlen) <= nr
+//@     invariant forall k int :: preloop($trlen) <= k && k < $trlen ==>
+//@           $tr[k].kind == kindof("send") && $tr[k].obj == conn.in && $tr[k].obj2 != nil
+//@     invariant $trlen > preloop($trlen) && nr > 0 ==> $wire[preloop($wirelen) + nr - 1].seq < $tr[$trlen - 1].seq || $trlen - preloop($trlen) < nr
+//@     step nr := nr + 1
+//@ end
+
+// runLoop: one line at a time - a line taken from conn.in is dispatched
+// synchronously, and the next receive happens only after that dispatch (and
+// with it the foreground phase) has returned; the only exit is cancellation,
+// ending with wg.Done followed by Close (C03, C05, C06).
+//@ func (*Conn).runLoop
+//@   property C03, C05, C06
+//@   safety C02
+//@   bind pdone int := after sync.(*WaitGroup).Done 1 $trlen
+//@   requires connInv(conn) && held(conn.mu) == 0 && ctx != nil
+//@   modifies $tr, $wg, $wire, $log, $now, $held, heap
+//@   ensures [C06] $tr[pdone - 1] == ev("wgdone", old(conn.wg)) && $tr[pdone] == ev("lock", old(conn.mu))
+//@   loop 0:
+//@     invariant connInv(conn) && held(conn.mu) == 0 && conn.wg === preloop(conn.wg) && conn.mu === preloop(conn.mu)
+//@     invariant $trlen == preloop($trlen) || $tr[$trlen - 1].kind == kindof("wgwait")
+//@ end
+
+// ping: one PING per tick, until cancelled; wg.Done on exit (C18, C06).
+//@ func (*Conn).ping
+//@   property C18, C06
+//@   safety C18
+//@   requires connOK(conn) && ctx != nil
+//@   modifies $tr, $now
+//@   ensures [C06] $tr[$trlen - 1] == ev("wgdone", conn.wg)
+//@   loop 0:
+//@     invariant forall k int :: preloop($trlen) <= k && k < $trlen ==>
+//@        ($tr[k].kind == kindof("recv") || ($tr[k].kind == kindof("send") && $tr[k].obj == conn.out && verbPrefix($tr[k].str, "PING")))
+//@ end
+
+// ---------------------------------------------------------------------------
+// connection.go: connecting
+
+//@ func hasPort
+//@   property C18
+//@   safety C18
+//@   ensures result <==> (exists c int :: lastOcc(s, ":", c) && (exists b int :: lastOcc(s, "]", b) && c > b))
+//@ end
+
+// dialProxy: exactly one dial, to cfg.Server, through the proxy dialer.
+//@ func (*Conn).dialProxy
+//@   property C18
+//@   safety C18
+//@   requires connOK(conn)
+//@   modifies conn.proxyDialer, $wire, $log
+//@   ensures $wirelen <= old($wirelen) + 1
+//@   ensures $wirelen == old($wirelen) + 1 ==> $wire[old($wirelen)].kind == kindof("ext") && $wire[old($wirelen)].obj == extid("dial") && $wire[old($wirelen)].str == conn.cfg.Server
+//@   ensures result1 == nil ==> result0 != nil && $wirelen == old($wirelen) + 1
+//@ end
+
+// internalConnect. Refused (no server, already connected) or failed: an
+// existing connection is left exactly as it was and nothing is spawned.
+// Success: connected, socket and queues in place, the goroutines spawned by
+// postConnect; the address dialled is the configured one with the default
+// port (6697 with SSL, else 6667) added only when it had none.
+//@ func (*Conn).internalConnect
+//@   property C06, C18
+//@   safety C06
+//@   attr lockcheck=C06
+//@   requires connInv(conn) && held(conn.mu) == 0 && ctx != nil && conn.dialer != nil
+//@   requires [C10] 0 <= conn.badness && conn.badness <= 10000000000 && 0 <= conn.lastsent && conn.lastsent <= $now && $now <= 4611686018427387904
+//@   modifies conn.io, conn.sock, conn.in, conn.out, conn.die, conn.connected, conn.proxyDialer, conn.cfg.Server, $trk, $tr, $wg, $wire, $log, $held, bufio.ReadWriter.Reader, bufio.ReadWriter.Writer
+//@   ensures $held === old($held)
+//@   ensures [C06] result != nil && old(conn.connected) ==> conn.connected && conn.sock == old(conn.sock) && conn.io == old(conn.io)
+//@        && conn.in == old(conn.in) && conn.out == old(conn.out) && conn.die == old(conn.die) && $trk == old($trk)
+//@   ensures [C06] result != nil ==> conn.connected == old(conn.connected)
+//@        && (forall k int :: old($trlen) <= k && k < $trlen ==> $tr[k].kind != kindof("spawn"))
+//@   ensures [C06] result == nil ==> !old(conn.connected) && conn.connected && conn.sock != nil && conn.io != nil && conn.in != nil && conn.out != nil && conn.die != nil
+//@   ensures [C18] result == nil ==> $wirelen >= old($wirelen) + 1 && $wire[old($wirelen)].kind == kindof("ext") && $wire[old($wirelen)].obj == extid("dial")
+//@        && $wire[old($wirelen)].str == conn.cfg.Server
+//@   ensures [C18] old(conn.cfg.Server) != "" && !old(conn.connected) ==>
+//@        conn.cfg.Server == (hasPortSpec(old(conn.cfg.Server)) ? old(conn.cfg.Server) : joinHostPort(old(conn.cfg.Server), conn.cfg.SSL ? "6697" : "6667"))
+//@ end
+//@ pred hasPortSpec(s string) := exists c int :: lastOcc(s, ":", c) && (exists b int :: lastOcc(s, "]", b) && c > b)
+
+// ConnectContext: REGISTER is dispatched exactly once, after a successful
+// internalConnect and before returning; a failed connect dispatches nothing.
+//@ func (*Conn).ConnectContext
+//@   property C06, C18
+//@   safety C06
+//@   bind pc int := after client.(*Conn).internalConnect 1 $trlen
+//@   bind rcmd string := before client.(*Conn).dispatch 1 arg1.Cmd
+//@   bind pd int := after client.(*Conn).dispatch 1 $trlen
+//@   requires connInv(conn) && held(conn.mu) == 0 && ctx != nil && conn.dialer != nil
+//@   requires [C10] 0 <= conn.badness && conn.badness <= 10000000000 && 0 <= conn.lastsent && conn.lastsent <= $now && $now <= 4611686018427387904
+//@   modifies $trk, $tr, $wg, $wire, $log, $held, $now, heap
+//@   ensures result != nil ==> $trlen == pc
+//@   ensures result == nil ==> rcmd == "REGISTER" && pd == $trlen && pc < pd && $tr[pc].kind == kindof("rlock")
 //@ end
